@@ -620,7 +620,7 @@ Fixpoint run_steps (ovf : bool) (t : ty) (s0 : mach) (top : ptr) (i k : Z) (step
   end.
 
 (* case: ty ints, flush, refuse, val ints, nsteps, (len ints..)* *)
-Definition run_ops (input0 : list Z) : list Z :=
+Definition run_ops_hist (input0 : list Z) : list Z :=
   let input := tl input0 in
   match dec_ty (length input) input with
   | Some (t, _flush :: refuse :: r) =>
@@ -649,4 +649,83 @@ Definition run_parse (input0 : list Z) : list Z :=
       | o => out_tag o
       end
   | _ => [-1]
+  end.
+
+(* ---------------------------------------------------------------------------------------------- *)
+(* swap mode (C03): accessors of the same type exchanged between two buffers                       *)
+Fixpoint reloc (c : Z) (p : ptr) : ptr :=
+  match p with
+  | PFixed a => PFixed (a + c)
+  | PList a b => PList (a + c) b
+  | PRem a l => PRem (a + c) l
+  | PUList a n inner pmb rs re =>
+      PUList (a + c) n (match inner with Some q => Some (reloc c q) | None => None end) pmb (rs + c) (re + c)
+  | PStruct fs => PStruct (map (reloc c) fs)
+  | PEnum st d q => PEnum (st + c) d (reloc c q)
+  end.
+
+Definition S5_TY : ty :=
+  TStruct [TList (FAny 1) 4; TUList (TList (FAny 1) 4) 0; TUList (TUList (TList (FAny 1) 4) 0) 0; TList (FAny 1) 4].
+Definition S5_VAL : val :=
+  VStruct [VList [[1]; [2]; [3]];
+           VUList [([], VList [[4]; [5]]); ([], VList [[6]]); ([], VList [])];
+           VUList [([], VUList [([], VList [[7]])]); ([], VUList [])];
+           VList [[8]; [9]]].
+
+(* the second buffer lives `far` bytes away (either direction: the theorem C03_swapped_accessor_detected covers both) *)
+Definition run_swap (input : list Z) : list Z :=
+  match input with
+  | scenario :: when :: then_ :: _ =>
+      let t := S5_TY in
+      let bs := encode t S5_VAL in
+      let s0 := mkMach (bs ++ zrepeat 0 MAX_PERMITTED_DATA_INCREASE) (zlen bs) 0 0 in
+      match get_ptr true t (m_mem s0) 0 (m_len s0) with
+      | Ok (top0, _) =>
+          let far := 1000000 in
+          (* optional resizes before the swap *)
+          let st1 := if when =? 1 then list_insert t s0 top0 [PF 0] 3 [[42]] else Ok (s0, top0, []) in
+          let st2 := if when =? 1 then list_insert t s0 top0 [PF 3] 2 [[43]] else Ok (s0, top0, []) in
+          match st1, st2 with
+          | Ok (s1, top1, _), Ok (s2, top2, _) =>
+              let pos := if scenario =? 0 then [PF 0] else if scenario =? 1 then [PF 1] else if scenario =? 2 then [PF 3]
+                         else if scenario =? 4 then [PF 2] else [PF 1; PI] in
+              let pre1 := if scenario =? 3 then ulist_touch true t s1 top1 [PF 1] 1 else Ok (s1, top1, []) in
+              let pre2 := if scenario =? 3 then ulist_touch true t s2 top2 [PF 1] 1 else Ok (s2, top2, []) in
+              match pre1, pre2 with
+              | Ok (s1', top1', _), Ok (_, top2', _) =>
+                  match get_at t (reloc far top2') pos with
+                  | Some (_, foreign) =>
+                      let swapped := set_at t top1' pos foreign in
+                      let r :=
+                        if then_ =? 1 then list_insert t s1' swapped [PF 3] (if when =? 1 then 2 else 2) [[7]]
+                        else if then_ =? 2 then ulist_touch true t s1' swapped [PF 1] 1
+                        else if then_ =? 3 then
+                          (if scenario =? 0 then list_insert t s1' swapped [PF 0] (if when =? 1 then 4 else 3) [[1]]
+                           else if (scenario =? 1) || (scenario =? 3) then ulist_insert t s1' swapped [PF 1] 3 1 [[]]
+                           else if scenario =? 2 then list_insert t s1' swapped [PF 3] 2 [[1]]
+                           else ulist_clear t s1' swapped [PF 2])
+                        else Ok (s1', swapped, []) in
+                      match r with
+                      | Panic => [1]
+                      | Ok (s3, top3, _) => if top_check s3 top3 then [0] else [1]
+                      (* Fault: the access went to the OTHER buffer's memory, which this one-buffer machine does not
+                         hold (in reality that memory exists and the access succeeds); detection is the drop check *)
+                      | Err _ | Fault => if top_check s1' swapped then [0] else [1]
+                      end
+                  | None => [-1]
+                  end
+              | _, _ => [-2]
+              end
+          | _, _ => [-3]
+          end
+      | _ => [-4]
+      end
+  | _ => [-5]
+  end.
+
+(* the accessor-swap scenarios ride along with the operation histories as "shape 100" *)
+Definition run_ops (input0 : list Z) : list Z :=
+  match input0 with
+  | 100 :: r => run_swap r
+  | _ => run_ops_hist input0
   end.
